@@ -121,7 +121,13 @@ def run(ctx):
             rdir = os.path.join(td, "rec%d" % i)
             os.mkdir(rdir)
             d0 = datetime.datetime.utcnow()
-            r = sdlib.run_samedec(rec, child=[rec_script], env={"REC_DIR": rdir})
+            if i % 4 == 2:
+                # the recording arrives on a pipe, written in odd-sized chunks with a pause (a live source): the children must get
+                # exactly the same bytes as from a file
+                r = sdlib.run_samedec_chunked(rec, [(2 * rng.range(200, 3000) + 1, 0.25), (4097, 0), (8191, 0.02), (16385, 0)],
+                                              child=[rec_script], env={"REC_DIR": rdir})
+            else:
+                r = sdlib.run_samedec(rec, child=[rec_script], env={"REC_DIR": rdir})
             d1 = datetime.datetime.utcnow()
             runs += 1
             mlines, mspawns, raw = rec.model(0, 1)
